@@ -18,6 +18,19 @@ Histories are Python statements executed with `exec` over small trees of
 very statement sequence followed by the failing assertion.  Operations may
 raise (bad index, type error, ...): the tree must be well-formed all the same.
 
+A node is an OBJECT, not a value: tree `twins` holds sibling nodes that are
+equal by value but distinct (palindromic lists, equal dict values / object
+members), the value class `equal-to-stored` inserts a distinct node that is
+equal by value to the one it replaces, and lists are reordered by position
+(sorts whose key ignores the value, reversal by slice / rebind).  A refused
+operation is an operation: tree `strict` holds containers that refuse before,
+midway or after the mutation (required fields without default -- `clear`,
+`del`, `pop`; list size bounds; element / field types inside a batch;
+validation in `_on_bound`; `use_value_spec` with a spec the content violates;
+onchange callbacks that raise; a sort that fails after elements have moved);
+whatever was refused, every node that is still stored must still be attached
+where it is stored.
+
 Keys are data: `drv_key_classes` instantiates the same alphabet over trees
 whose dict keys / attribute names belong to a key class (KEY_CLASSES: path
 syntax characters, digit strings, empty string, other text, member names,
@@ -114,7 +127,6 @@ class R(pg.Object):
     ])),
     ('l', pg.typing.List(pg.typing.Dict([('v', pg.typing.Any())]),
                          min_size=2, max_size=3)),
-    ('e', pg.typing.List(pg.typing.Object(A), default=[])),
     ('o', pg.typing.Object(R)),
 ])
 class S(pg.Object):
@@ -139,7 +151,7 @@ CLASS_S = ("T = pg.typing\n"
            "@pg.members([('q', T.Dict([('name', T.Str(default='n')), ('opt', T.Object(A)), "
            "('sub', T.Dict([('steps', T.List(T.Any()))]))])), "
            "('l', T.List(T.Dict([('v', T.Any())]), min_size=2, max_size=3)), "
-           "('e', T.List(T.Object(A), default=[])), ('o', T.Object(R))])\n"
+           "('o', T.Object(R))])\n"
            "class S(pg.Object): allow_symbolic_assignment = True\n")
 CLASS_W = ("@pg.members([(pg.typing.StrKey(), pg.typing.Any())])\n"
            "class W(pg.Object): allow_symbolic_assignment = True\n")
@@ -195,7 +207,7 @@ TREES = {
     # validates in _on_bound, containers whose onchange callback raises.
     'strict': (
         "r = pg.Dict(g=S(q={'opt': A(x={'p': 1}), 'sub': {'steps': [{'at': 1}]}}, "
-        "l=[{'v': {'i': 1}}, {'v': {'i': 1}}], e=[A(x={'f': 1}), A(x={'f': 1})], "
+        "l=[{'v': {'i': 1}}, {'v': {'i': 1}}], "
         "o=R(u=1, x={'w': [1]})), "
         "cl=pg.List([{'a': 1}, {'b': 2}, 7], onchange_callback=_boom), "
         "cd=pg.Dict(a={'n': 1}, b={'n': 2}, onchange_callback=_boom))\n" + _EXT),
@@ -406,6 +418,55 @@ class _Adder:
                        xcore=xcore and self.core_target))
 
 
+def _list_equal_ops(add, L, v):
+  """`v`: a distinct node that is equal by value to the first element: the
+  operations that replace the first element, or add `v` next to it."""
+  add('setitem', 'first/equal-to-stored', f'{L}[0] = {v}', xcore=True)
+  add('setitem-slice', 'same/equal-to-stored', f'{L}[0:1] = [{v}]')
+  add('setitem-slice', 'all/equal-to-stored',
+      f'{L}[:] = [pg.clone(v, deep=True) for v in {L}.sym_values()]', xcore=True)
+  add('rebind-set', 'equal-to-stored', f'{L}.rebind({{0: {v}}})', xcore=True)
+  add('rebind-set@notify_parents_off', 'equal-to-stored',
+      f'{L}.rebind({{0: {v}}}, notify_parents=False)')
+  add('rebind-set@skip_notification', 'equal-to-stored',
+      f'{L}.rebind({{0: {v}}}, skip_notification=True)')
+  add('setitem@notify_off', 'equal-to-stored',
+      f'with pg.notify_on_change(False): {L}[0] = {v}')
+  add('setitem@typecheck_off', 'equal-to-stored',
+      f'with pg.enable_type_check(False): {L}[0] = {v}')
+  add('append', 'equal-to-stored', f'{L}.append({v})')
+  add('insert', 'at0/equal-to-stored', f'{L}.insert(0, {v})', xcore=True)
+  add('insert', 'at1/equal-to-stored', f'{L}.insert(1, {v})')
+  add('remove', 'equal-to-stored', f'{L}.remove({v})', xcore=True)
+  add('rebind-insert', 'at0/equal-to-stored', f'{L}.rebind({{0: pg.Insertion({v})}})')
+  add('extend', 'two/equal-to-stored', f'{L}.extend([{v}, {v}])')
+
+
+def _dict_equal_ops(add, D, k0, nk, v):
+  """`v`: a distinct node that is equal by value to the one stored at k0."""
+  p0 = _pathkey(k0)
+  add('setitem', 'replace/equal-to-stored', f'{D}[{k0!r}] = {v}', xcore=True)
+  add('setitem', 'new/equal-to-stored', f'{D}[{nk!r}] = {v}')
+  add('setattr', 'replace/equal-to-stored', _setattr(D, k0, v))
+  add('setdefault', 'existing/equal-to-stored', f'{D}.setdefault({k0!r}, {v})')
+  add('update', 'dict/equal-to-stored', f'{D}.update({{{k0!r}: {v}, {nk!r}: {v}}})',
+      xcore=True)
+  add('update', 'all/equal-to-stored',
+      f'{D}.update({{k: pg.clone(v, deep=True) for k, v in {D}.sym_items()}})',
+      xcore=True)
+  add('ior', 'replace/equal-to-stored', f'{D} |= {{{k0!r}: {v}}}')
+  add('rebind', 'replace/equal-to-stored',
+      f'{D}.rebind({{{p0}: {v}}}, raise_on_no_change=False)', xcore=True)
+  add('rebind@skip_notification', 'replace/equal-to-stored',
+      f'{D}.rebind({{{p0}: {v}}}, skip_notification=True, raise_on_no_change=False)')
+  add('rebind@notify_parents_off', 'replace/equal-to-stored',
+      f'{D}.rebind({{{p0}: {v}}}, notify_parents=False, raise_on_no_change=False)')
+  add('setitem@notify_off', 'replace/equal-to-stored',
+      f'with pg.notify_on_change(False): {D}[{k0!r}] = {v}')
+  add('setitem@typecheck_off', 'replace/equal-to-stored',
+      f'with pg.enable_type_check(False): {D}[{k0!r}] = {v}')
+
+
 def list_ops(L, intree, core_target=False, values=None, target=None,
              wrap=None, bad=()):
   """Every mutator of the list reachable through expression `L`.
@@ -419,6 +480,9 @@ def list_ops(L, intree, core_target=False, values=None, target=None,
     add.vclass = vl
     c = vl in CORE_VALUES
     f = vl == 'fresh'
+    if vl == 'equal-to-stored':
+      _list_equal_ops(add, L, v)
+      continue
     add('setitem', f'first/{vl}', f'{L}[0] = {v}', c)
     add('setitem', f'last/{vl}', f'{L}[-1] = {v}')
     add('append', vl, f'{L}.append({v})', c)
@@ -582,6 +646,9 @@ def dict_ops(D, intree, core_target=False, keys=('a', 'b'), nk='z', nk2='y2',
     add.vclass = vl
     c = vl in CORE_VALUES
     f = vl == 'fresh'
+    if vl == 'equal-to-stored':
+      _dict_equal_ops(add, D, k0, nk, v)
+      continue
     add('setitem', f'replace/{vl}', f'{D}[{k0!r}] = {v}', c)
     add('setitem', f'new/{vl}', f"{D}[{nk!r}] = {v}", c)
     add('setitem', f'intkey/{vl}', f'{D}[1] = {v}')
@@ -698,7 +765,7 @@ def object_ops(O, intree, core_target=False, fields=('x', 'y'), values=None,
   for vl, v in _vals(intree, values, g0, wrap):
     add.vclass = vl
     c = vl in CORE_VALUES
-    add('setattr', f'{vl}', _setattr(O, f0, v), c)
+    add('setattr', f'{vl}', _setattr(O, f0, v), c, xcore=vl == 'equal-to-stored')
     add('setattr', f'other/{vl}', _setattr(O, f1, v))
     add('rebind', f'kwargs/{vl}', rb((f0, v)), c)
     add('rebind', f'both/{vl}', rb((f0, v), (f1, v)))
@@ -830,7 +897,7 @@ def deep_rebind_ops(kind):
     add('valid+invalid/dict', f"r.rebind({{'g.q.opt': {AV}, 'g.q.sub': 5}})", True)
     add('valid+invalid/dict', f"r.rebind({{'g.q.sub.steps': 5, 'g.q.opt': {AV}}})")
     add('valid+invalid/list', f"r.rebind({{'g.l[0]': {LV}, 'g.l[1]': 5}})", True)
-    add('valid+invalid/list', f"r.rebind({{'g.e[0]': {AV}, 'g.l[0]': {LV}, 'g.e[1]': 5}})")
+    add('valid+invalid/list', f"r.rebind({{'g.q.opt': {AV}, 'g.l[0]': {LV}, 'g.l[1]': {{'w': 5}}}})")
     add('valid+invalid/object', f"r.rebind({{'g.o.x': {V}, 'g.o.u': -1}})", True)
     add('valid+invalid/object', f"r.rebind({{'g.o': R(u=2, x={V}), 'g.q': {{'opt': 5}}}})", True)
     add('valid+invalid/across', f"r.rebind({{'cd.a': {V}, 'g.o.x': {V}, 'g.l[0].v': {V}, 'g.q.opt': 5}})", True)
@@ -975,6 +1042,12 @@ def key_alphabet_ops(kind):
   return ops
 
 
+def _plain(ops):
+  """Without the variants under a flag / context manager of operations that
+  insert a value."""
+  return [o for o in ops if o.vclass is None or '@' not in o.group]
+
+
 _ALPHABETS = {}
 
 
@@ -1037,9 +1110,7 @@ def alphabet(kind):
     ops += dict_ops('r.g.q', 'r.cd.a', True, keys=('opt', 'sub'), values=some,
                     wrap='A(x=%s)', bad=('5', "{'steps': 5}"))
     ops += list_ops('r.g.l', 'r.cd.a', True, values=some, wrap="{'v': %s}",
-                    bad=('5', "{'w': 1}"))
-    ops += list_ops('r.g.e', 'r.cd.a', False, values=few, wrap='A(x=%s)',
-                    bad=("{'nope': 1}", 'R(u=1)'))
+                    bad=('5', "{'w': 1}", 'A(x=1)'))
     ops += object_ops('r.g', 'r.cd.a', False, fields=('o', 'q'), values=few,
                       wrap='R(u=1, x=%s)',
                       bad=("{'opt': 5}",
@@ -1049,7 +1120,7 @@ def alphabet(kind):
     ops += [o for o in dict_ops('r.g.l[0]', 'r.cd.a', False, keys=('v', ''),
                                 values=few) if o.vclass in (None, 'fresh')]
     ops += list_ops('r.cl', 'r.g.q.sub', True, values=few)
-    ops += dict_ops('r.cd', 'r.g.q.sub', False, keys=('a', 'b'), values=few)
+    ops += _plain(dict_ops('r.cd', 'r.g.q.sub', False, keys=('a', 'b'), values=few))
   if '/' not in kind:
     ops += deep_rebind_ops(kind)
   ops += whole_tree_ops()
@@ -1619,7 +1690,7 @@ def drv_histories_exhaustive(tier, seed):
              f'({sizes} statements, of which core: {cores}); all histories of '
              'length 1; length 2: '
              + ('core x core restricted to pairs with (j - i) % 12 == seed % 12 '
-                '(twins/strict: % 24)'
+                '(twins: % 24, strict: % 36)'
                 if quick else
                 'core x core, non-core x core[seed%16::16] and the converse; '
                 'length 3: core[seed%8::8]^3 (twins/strict: core x core with '
@@ -1629,7 +1700,7 @@ def drv_histories_exhaustive(tier, seed):
       ops = alphabet(kind)
       core = [o for o in ops if o.core]
       if quick:
-        m = 24 if kind in EXTRA_KINDS else 12
+        m = {'twins': 24, 'strict': 36}.get(kind, 12)
         _enumerate(rec, kind, ops, [], wd=wd)
         _enumerate(rec, kind, core,
                    lambda i: core[(i + seed) % m::m],  # pylint: disable=cell-var-from-loop
@@ -1744,7 +1815,7 @@ def drv_histories_random(tier, seed):
   """Seeded random longer histories (length 3..7), checked after every step."""
   quick = tier == 'quick'
   n = 180 if quick else 4000
-  nx = 90 if quick else 2000      # trees twins / strict
+  nx = 60 if quick else 2000      # trees twins / strict
   nkey = 8 if quick else 150
   rec = Recorder(
       'C01', 'tree well-formedness after every step of random histories',
